@@ -322,6 +322,9 @@ func replay(t *testing.T, job *Job) {
 		"violations": v.Violations, "harness_error": v.HarnessError, "inconclusive": v.Inconclusive, "stats": v.Stats, "history": v.Sample}
 	emit("replay", res)
 	if job.Trace {
+		for _, l := range v.Notes {
+			fmt.Fprintf(out, "TRACE NOTE %s\n", l)
+		}
 		for _, l := range v.Trace {
 			fmt.Fprintf(out, "TRACE %s\n", l)
 		}
